@@ -171,7 +171,7 @@ def worker_batch(job: dict) -> dict:
                   digests[f"{seed}:{vi}:{k}"] = run.digest() + ":" + ";".join(sorted("|".join(f["sig"]) for f in F))
               stats["steps"] += run.sim.step
               stats["choice_points"] += run.sim.n_choice_points
-              stats["executions"] += len(run.rt.pools)
+              stats["executions"] += run.rt.n_tokens
               stats["events"] += len(run.sim.events)
               stats["virtual_time_ms"] += int(run.sim.now * 1000)
               strat_mix[strategy] += 1
